@@ -936,3 +936,118 @@ Section SetSpec.
     destruct (Hc z Hz) as [y [Hy He]]. exists y. split; [exact Hy|apply e_is_eq; exact He].
   Qed.
 End SetSpec.
+
+(* ------------------------------------------------------------------ *)
+(* none of the set functions can Panic or run out of fuel: they answer Ok or Err
+   whenever keyF, the comparison and == do *)
+
+Section NoPanicSetOps.
+  Variables (A K E : Type) (keyf : A -> outcome K E) (cmp : K -> K -> outcome comparison E) (eqv : K -> K -> outcome bool E).
+  Hypothesis keyf_clean : forall a, clean (keyf a).
+  Hypothesis cmp_clean' : forall a b, clean (cmp a b).
+  Hypothesis eqv_clean : forall a b, clean (eqv a b).
+
+  Lemma uniq_loop_clean items : forall k, clean (uniq_loop keyf eqv k items).
+  Proof.
+    induction items as [|it more IH]; intros k; cbn [uniq_loop]; [exact I|].
+    apply clean_obind; [apply keyf_clean|]. intros k' _.
+    apply clean_obind; [apply eqv_clean|]. intros e' _.
+    apply clean_obind; [apply IH|]. intros; exact I.
+  Qed.
+
+  Theorem std_uniq_clean arr : clean (std_uniq keyf eqv arr).
+  Proof.
+    destruct arr as [|a0 [|a1 rest]]; cbn [std_uniq]; try exact I.
+    apply clean_obind; [apply keyf_clean|]. intros k _.
+    apply clean_obind; [apply uniq_loop_clean|]. intros; exact I.
+  Qed.
+
+  Theorem std_set_clean arr : clean (std_set keyf cmp eqv arr).
+  Proof.
+    rewrite set_is_uniq_sort. apply clean_obind.
+    - apply std_sort_clean; intros; [apply keyf_clean|apply cmp_clean'].
+    - intros s _. apply std_uniq_clean.
+  Qed.
+
+  Lemma cmp_ab_clean x y : clean (cmp_ab keyf cmp x y).
+  Proof.
+    unfold cmp_ab. apply clean_obind; [apply keyf_clean|]. intros kx _.
+    apply clean_obind; [apply keyf_clean|]. intros ky _. apply cmp_clean'.
+  Qed.
+
+  Lemma union_walk_clean : forall a b, clean (union_walk keyf cmp a b).
+  Proof.
+    induction a as [|x a IHa]; intros b; [rewrite union_walk_nil_l; exact I|].
+    induction b as [|y b IHb]; [rewrite union_walk_nil_r; exact I|].
+    rewrite union_walk_cons. apply clean_obind; [apply cmp_ab_clean|]. intros cc _.
+    destruct cc; (apply clean_obind; [first [apply IHa|apply IHb]|intros; exact I]).
+  Qed.
+
+  Lemma inter_walk_clean : forall a b, clean (inter_walk keyf cmp a b).
+  Proof.
+    induction a as [|x a IHa]; intros b; [rewrite inter_walk_nil_l; exact I|].
+    induction b as [|y b IHb]; [rewrite inter_walk_nil_r; exact I|].
+    rewrite inter_walk_cons. apply clean_obind; [apply cmp_ab_clean|]. intros cc _.
+    destruct cc; [apply clean_obind; [apply IHa|intros; exact I]|apply IHa|apply IHb].
+  Qed.
+
+  Lemma diff_walk_clean : forall a b, clean (diff_walk keyf cmp a b).
+  Proof.
+    induction a as [|x a IHa]; intros b; [rewrite diff_walk_nil_l; exact I|].
+    induction b as [|y b IHb]; [rewrite diff_walk_nil_r; exact I|].
+    rewrite diff_walk_cons. apply clean_obind; [apply cmp_ab_clean|]. intros cc _.
+    destruct cc; [apply IHa|apply clean_obind; [apply IHa|intros; exact I]|apply IHb].
+  Qed.
+
+  Lemma member_slice_clean kx arr : forall fuel lo hi,
+    lo <= hi -> hi < length arr -> hi - lo < fuel -> clean (member_slice keyf cmp fuel kx arr lo hi).
+  Proof.
+    induction fuel as [|f IH]; intros lo hi Hlh Hhn Hf; [lia|].
+    rewrite member_slice_S.
+    assert (E0 : (hi <? lo) = false) by (apply Nat.ltb_ge; exact Hlh). rewrite E0. cbv zeta.
+    set (mid := lo + Nat.div (hi - lo) 2).
+    assert (Hmid : lo <= mid <= hi).
+    { unfold mid. pose proof (Nat.div_le_upper_bound (hi - lo) 2 (hi - lo)). lia. }
+    destruct (nth_error arr mid) eqn:En; [|apply nth_error_None in En; lia].
+    apply clean_obind; [apply keyf_clean|]. intros km _.
+    apply clean_obind; [apply cmp_clean'|]. intros cc _.
+    destruct cc; [exact I| |].
+    - destruct (mid =? lo) eqn:Em; [exact I|]. apply Nat.eqb_neq in Em. apply IH; lia.
+    - destruct (mid =? hi) eqn:Em; [exact I|]. apply Nat.eqb_neq in Em. apply IH; lia.
+  Qed.
+
+  Theorem std_set_member_clean x arr : clean (std_set_member keyf cmp x arr).
+  Proof.
+    unfold std_set_member. destruct arr as [|a0 rest] eqn:Earr; [exact I|]. rewrite <- Earr.
+    assert (0 < length arr) by (rewrite Earr; cbn; lia).
+    apply clean_obind; [apply keyf_clean|]. intros kx _. apply member_slice_clean; lia.
+  Qed.
+
+  Lemma scan_loop_clean take items : forall best kbest cur, clean (scan_loop keyf cmp take best kbest cur items).
+  Proof.
+    induction items as [|it more IH]; intros best kbest cur; cbn [scan_loop]; [exact I|].
+    apply clean_obind; [apply keyf_clean|]. intros k _.
+    apply clean_obind; [apply cmp_clean'|]. intros cc _. destruct (take cc); apply IH.
+  Qed.
+
+  Theorem scan_array_clean take arr : clean (scan_array keyf cmp take arr).
+  Proof.
+    destruct arr as [|a0 [|a1 rest]]; cbn [scan_array]; try exact I.
+    apply clean_obind; [apply keyf_clean|]. intros k _.
+    apply clean_obind; [apply scan_loop_clean|]. intros; exact I.
+  Qed.
+
+  Theorem set_functions_clean :
+    (forall arr, clean (std_uniq keyf eqv arr)) /\ (forall arr, clean (std_set keyf cmp eqv arr)) /\
+    (forall a b, clean (std_set_union keyf cmp a b)) /\ (forall a b, clean (std_set_inter keyf cmp a b)) /\
+    (forall a b, clean (std_set_diff keyf cmp a b)) /\ (forall x arr, clean (std_set_member keyf cmp x arr)) /\
+    (forall arr, clean (std_min_array_idx keyf cmp arr)) /\ (forall arr, clean (std_max_array_idx keyf cmp arr)).
+  Proof.
+    split; [exact std_uniq_clean|]. split; [exact std_set_clean|].
+    split; [intros; rewrite std_set_union_walk; apply union_walk_clean|].
+    split; [intros; rewrite std_set_inter_walk; apply inter_walk_clean|].
+    split; [intros; rewrite std_set_diff_walk; apply diff_walk_clean|].
+    split; [exact std_set_member_clean|].
+    split; intros; apply scan_array_clean.
+  Qed.
+End NoPanicSetOps.
